@@ -45,7 +45,7 @@ def write_pdb(m):
     for (serial, name, resn, chain, resseq, x, y, z, occ, b, zn) in m["atoms"]:
         rec = "ATOM  " if not m.get("hetatm") else "HETATM"
         out.append(f"{rec}{serial:5d} {name:<4s} {resn:3s} {chain:1s}{resseq:4d}    "
-                   f"{x:8.3f}{y:8.3f}{z:8.3f}{occ:6.2f}{b:6.2f}          {NUM2SYM[zn]:>2s}")
+                   f"{x:8.3f}{y:8.3f}{z:8.3f}{occ:6.2f}{b:6.2f}          {'' if m.get('no_element') else NUM2SYM[zn]:>2s}")
     for serial, others in m.get("conect", []):
         out.append("CONECT" + f"{serial:5d}" + "".join(f"{o:5d}" for o in others))
     out.append("END")
